@@ -26,7 +26,8 @@ ASSUMPTIONS = ["an instance's key is recovered from the element values it reads 
                "g++-12 -O1 build of the working tree with harness-side shims"]
 FLOORS = {"epochs_checked": {"quick": 1200, "thorough": 20000}, "readd_epochs": {"quick": 150, "thorough": 2500},
           "instance_runs_compared": {"quick": 8000, "thorough": 120000}, "output_ticks_compared": {"quick": 2000, "thorough": 35000},
-          "timer_runs_in_instances": {"quick": 300, "thorough": 5000}, "map_key_throws": {"quick": 50, "thorough": 800},
+          "timer_runs_in_instances": {"quick": 300, "thorough": 5000}, "map_key_throws": {"quick": 50, "thorough": 800}, "two_dictionary_epochs": {"quick": 80, "thorough": 1200},
+          "key_left_one_dictionary_only": {"quick": 40, "thorough": 600},
           "map_other_key_runs_compared": {"quick": 700, "thorough": 10000}}
 BATCH = 15
 
@@ -73,31 +74,101 @@ def gen_key_history(rng, start, end, universe):
     return out
 
 
+def gen_two_dict_history(rng, start, end, universe):
+    """Joint history of two dictionaries: keys live in both, one of them drops a key in a cycle in which the union changes
+    for an UNRELATED key, then stays quiet for a few cycles while the other dictionary keeps ticking the surviving element."""
+    A, B = {}, {}
+    liveA, liveB, seq = set(), set(), {}
+
+    def put(d, live, t, k):
+        seq[k] = seq.get(k, 0) + 1
+        d.setdefault(t, []).append(f"[{k}]={k * 1000 + seq[k] % 1000}")
+        live.add(k)
+
+    t = start
+    for k in rng.sample(range(universe), min(universe, rng.choice([2, 3, 4]))):
+        put(A, liveA, t, k)
+        put(B, liveB, t + rng.choice([0, 0, 1]), k)
+    t += 2
+    while t < end - 4:
+        both = sorted(liveA & liveB)
+        r = rng.random()
+        if both and r < 0.6:
+            k = rng.choice(both)
+            drop, dl, keep, kl = (B, liveB, A, liveA) if rng.random() < 0.5 else (A, liveA, B, liveB)
+            drop.setdefault(t, []).append(f"x[{k}]")
+            dl.discard(k)
+            fresh = [q for q in range(universe) if q not in liveA and q not in liveB and q != k]
+            if fresh and rng.random() < 0.8:
+                put(rng.choice([A, B]) if False else keep, kl, t, rng.choice(fresh))      # the union gains an unrelated key
+            quiet = rng.choice([2, 3, 5])
+            for dt in range(1, quiet + 1):
+                if t + dt < end and rng.random() < 0.7:
+                    put(keep, kl, t + dt, k)                      # the surviving element keeps ticking
+            t += quiet + 1
+            if rng.random() < 0.7 and t < end:
+                put(drop, dl, t, k)                                # and the key comes back later
+                t += 1
+        else:
+            d, live = (A, liveA) if rng.random() < 0.5 else (B, liveB)
+            k = rng.randrange(universe)
+            if k in live and rng.random() < 0.3:
+                d.setdefault(t, []).append(f"x[{k}]")
+                live.discard(k)
+            else:
+                put(d, live, t, k)
+            t += rng.choice([1, 1, 2])
+    return [f"{t}|" + ",".join(ops) for t, ops in sorted(A.items())], [f"{t}|" + ",".join(ops) for t, ops in sorted(B.items())]
+
+
 def gen_case10(rng, name, idx):
     start, end = 0, rng.choice([20, 30, 45])
     c = Case(name, start, end)
     uid = UID(100)
     big = idx % 12 == 11
     c.cscripts[1] = gen_key_history(rng, start, end, rng.choice([3, 5, 8]) if not big else 60)
-    kind = rng.choice(["fn1", "fn1", "fn2", "fnk1"])
+    kind = rng.choice(["fn1", "fn1", "fn2", "fnk1", "fnk2"])
     c.meta["kind"] = kind
     main = [S("d", "csrc", shape="tsd", uid=1)]
+    if kind == "fnk2":
+        # two multiplexed dictionaries with differing key sets (the instance exists while its key is in either)
+        c.cscripts[2] = gen_key_history(rng, start, end, rng.choice([3, 5, 8]) if not big else 60)
+        if rng.random() < 0.6:
+            c.cscripts[1], c.cscripts[2] = gen_two_dict_history(rng, start, end, rng.choice([4, 6, 9]))
+        main.append(S("d2", "csrc", shape="tsd", uid=2))
     if kind == "fn2":
         c.scripts[5] = gen_script(rng, start, end, density=rng.choice([1, 3, 6]))
         main.append(S("b", "src", uid=5, mode=0))
     # the mapped function: entry pass nodes identify the instance, then a generated body
     g = ProgGen(rng, c, uid, allow_sub=False, allow_fb=rng.random() < 0.2, allow_sched=False)
-    params = {"fn1": ["p0"], "fn2": ["p0", "p1"], "fnk1": ["p0", "p1"]}[kind]
-    elem = "p1" if kind == "fnk1" else "p0"
+    params = {"fn1": ["p0"], "fn2": ["p0", "p1"], "fnk1": ["p0", "p1"], "fnk2": ["p0", "p1", "p2"]}[kind]
+    elem = "p1" if kind == "fnk1" else "p0"         # fnk2: the entry node reads the key itself
     entry = [S("e_", "pass", elem, uid=90)]
     body_params = ["e_"] + ([p for p in params if p != elem])
+    if kind == "fnk2":
+        body_params = ["p1", "p2", "e_"]
     body = g.body("f", body_params, rng.choice([1, 2, 4, 6]), 5, True)
+    if kind == "fnk2":
+        # whether the END of one element stream (the key left one dictionary only) wakes consumers that accept an unset input
+        # is not defined by the property and differs between direct and list-shaped inputs: such consumers never read the
+        # elements directly in these programs (consumers that need a value are silent either way)
+        for _ in range(30):
+            if not any(st.op in ("gate", "halfgate", "list2", "allvalid2", "sched") and any(a.lstrip("~") in ("p1", "p2") for a in st.args)
+                       for st in body):
+                break
+            body = g.body("f", body_params, rng.choice([1, 2, 4, 6]), 5, True)
+        else:
+            body = [S("fz_", "add2", "p1", "p2", uid=uid()), S("", "RET", "fz_")]
     for st in body:
         if st.op == "src":
             st.kw["rel"] = 1
+    if kind == "fnk2" and body and body[-1].op == "RET" and body[-1].args[0] in ("p1", "p2"):
+        # an instance that returns one dictionary's element unchanged loses its output when the key leaves that dictionary
+        # only; the standalone oracle does not track output invalidation, so such functions return a copy instead
+        body[-1:] = [S("ret_", "pass", body[-1].args[0], uid=uid.n + 50), S("", "RET", "ret_")]
     c.graphs["fn0"] = entry + body
     c.meta["entry_uid"] = 90
-    args = ["d"] + (["b"] if kind == "fn2" else [])
+    args = ["d"] + (["b"] if kind == "fn2" else []) + (["d2"] if kind == "fnk2" else [])
     main.append(S("m", "map", *args, fn=f"{kind}:0"))
     main.append(S("", "cmirror", "m", uid=11))
     c.graphs["main"] = main
@@ -147,7 +218,35 @@ def epochs_from_writes(wl, end):
     return out
 
 
-def standalone(case, epoch, bticks, emulate=False):
+def union_epochs(wl1, wl2, end):
+    """Two multiplexed dictionaries: an instance lives while its key is in either; inside an epoch each element stream
+    carries the writes of its dictionary and an 'INV' mark where the key left that dictionary (the other still holding it)."""
+    INF = 10 ** 9
+    e1, e2 = epochs_from_writes(wl1, end), epochs_from_writes(wl2, end)
+    out = {}
+    for k in set(e1) | set(e2):
+        ivs = sorted([(e["start"], INF if e["stop"] is None else e["stop"], 1, e) for e in e1.get(k, [])] +
+                     [(e["start"], INF if e["stop"] is None else e["stop"], 2, e) for e in e2.get(k, [])], key=lambda x: (x[0], x[2]))
+        cur = None
+        for st, sp, which, e in ivs:
+            if cur is None or st > cur["stop"]:
+                cur = {"key": k, "start": st, "stop": sp, "ticks": [], "ticks2": []}
+                out.setdefault(k, []).append(cur)
+            else:
+                cur["stop"] = max(cur["stop"], sp)
+            lst = cur["ticks"] if which == 1 else cur["ticks2"]
+            lst += list(e["ticks"])
+            if sp < INF:
+                lst.append((sp, "INV"))
+        for ep in out.get(k, []):
+            for name in ("ticks", "ticks2"):
+                ep[name] = sorted((x for x in ep[name] if not (x[1] == "INV" and x[0] >= ep["stop"])), key=lambda x: x[0])
+            if ep["stop"] >= INF:
+                ep["stop"] = None
+    return out
+
+
+def standalone(case, epoch, bticks, emulate=False, inv_notifies=True):
     """Model of the mapped function run alone on one key epoch."""
     t0 = epoch["start"]
     t1 = epoch["stop"] if epoch["stop"] is not None else case.end
@@ -167,6 +266,12 @@ def standalone(case, epoch, bticks, emulate=False):
         c.scripts[1002] = sc
         main.append(S("bc", "src", uid=1002, mode=1))
         args = ["el", "bc"]
+    elif kind == "fnk2":
+        c.scripts[1003] = [(t0, epoch["key"])]
+        c.scripts[1002] = list(epoch["ticks2"])
+        main.append(S("ky", "src", uid=1003, mode=1))
+        main.append(S("el2", "src", uid=1002, mode=1))
+        args = ["ky", "el", "el2"]
     else:
         c.scripts[1003] = [(t0, epoch["key"])]
         main.append(S("ky", "src", uid=1003, mode=1))
@@ -176,7 +281,7 @@ def standalone(case, epoch, bticks, emulate=False):
     main.append(S("", "rec", "o", uid=1004))
     c.graphs["main"] = main
     flat = M.flatten(c)
-    return M.simulate(flat, emulate_sampled_start=emulate)
+    return M.simulate(flat, emulate_sampled_start=emulate, inv_notifies=inv_notifies)
 
 
 def check(case, tr):
@@ -195,6 +300,8 @@ def check(case, tr):
     known = []
     wl = dict(write_log(run).get(1, []))
     eps = epochs_from_writes(wl, case.end)
+    if case.meta["kind"] == "fnk2":
+        eps = union_epochs(wl, dict(write_log(run).get(2, [])), case.end)
     bticks = []
     inst_runs = {}            # gid -> {(uid, t): (out, [vals])}
     gstart, gstop, gparent = {}, {}, {}
@@ -222,9 +329,9 @@ def check(case, tr):
         firsts = sorted((t, v) for (u, t), (o, v) in runs.items() if u == entry)
         if not firsts:
             continue
-        key = firsts[0][1][0][1] // 1000
+        key = firsts[0][1][0][1] // (1 if case.meta["kind"] == "fnk2" else 1000)
         inst_of[(key, gstart.get(gid))] = gid
-    n_epochs = readds = runs_cmp = out_cmp = timer_runs = phantom = 0
+    n_epochs = readds = runs_cmp = out_cmp = timer_runs = phantom = two_dict = partial_leave = 0
     exp_out = {}              # key -> list of (t, v) expected output ticks over all epochs, with epoch marks
     for key, lst in eps.items():
         for j, ep in enumerate(lst):
@@ -240,7 +347,16 @@ def check(case, tr):
             got = inst_runs[gid]
             exp = {(u, t): (o, [(x[0], x[3]) for x in ins]) for (u, t), (o, ins) in mr.runs.items() if u not in (1001, 1002, 1003, 1004)}
             runs_cmp += len(exp)
-            timer_runs += sum(1 for (u, t) in exp if not any(t == tt for tt, _ in ep["ticks"]))
+            timer_runs += sum(1 for (u, t) in exp if not any(t == tt for tt, _ in ep["ticks"] + ep.get("ticks2", [])))
+            two_dict += 1 if ep.get("ticks2") and ep["ticks"] else 0
+            partial_leave += sum(1 for _, v in ep["ticks"] + ep.get("ticks2", []) if v == "INV")
+            if got != exp and case.meta["kind"] == "fnk2":
+                # the property is silent on whether the end of one element stream (key left one dictionary) wakes the
+                # instance's consumers of that element: accept both
+                mr1 = standalone(case, ep, bticks, inv_notifies=False)
+                exp1 = {(u, t): (o, [(x[0], x[3]) for x in ins]) for (u, t), (o, ins) in mr1.runs.items() if u not in (1001, 1002, 1003, 1004)}
+                if got == exp1:
+                    mr, exp = mr1, exp1
             if got != exp:
                 mr2 = standalone(case, ep, bticks, emulate=True)
                 exp2 = {(u, t): (o, [(x[0], x[3]) for x in ins]) for (u, t), (o, ins) in mr2.runs.items() if u not in (1001, 1002, 1003, 1004)}
@@ -296,6 +412,7 @@ def check(case, tr):
     if known:
         res.violations.append(Violation(known[0], "nested-start-samples-unset-source"))
     res.counters = {"epochs_checked": n_epochs, "readd_epochs": readds, "instance_runs_compared": runs_cmp,
-                    "output_ticks_compared": out_cmp, "timer_runs_in_instances": timer_runs, "phantom_slots_seen": phantom}
+                    "output_ticks_compared": out_cmp, "timer_runs_in_instances": timer_runs, "phantom_slots_seen": phantom,
+                    "two_dictionary_epochs": two_dict, "key_left_one_dictionary_only": partial_leave}
     res.nontrivial = n_epochs >= 3 and readds >= 1
     return res
